@@ -3,6 +3,7 @@ import CssVerif.Lemmas.ValidateGen
 import CssVerif.Model.ValidateReg
 import CssVerif.Model.Css21Keywords
 import CssVerif.Lemmas.ValueText
+import CssVerif.Lemmas.ValidateColor
 import CssVerif.Model.OutPrefs
 /-!
 # C13 — the validation verdict depends only on name, value, profiles; validation only annotates
@@ -433,6 +434,102 @@ example : member Css21.length (cps "-1.5em") = true ∧ member Css21.length (cps
 example : (firstPattern "width").map (fun r => accepts r (cps "+1px")) = some false ∧
     member Css21.length (cps "+1px") = true ∧
     (firstPattern "min-width").map (fun r => accepts r (cps "none")) = some false := by
+  decide +kernel
+
+
+/-! ## T13.4 [W2] — the colour grammar -/
+
+/-- table checks (finite computations, kernel-evaluated), one per distinct pattern: the registered pattern of
+`color` / `background-color` / `outline-color` is template-shaped (690 / 691 templates) and every template of
+`colorLower` (CSS 2.1 `<color>` without system colours and `+` signs, plus the property's keywords) lies, segment by
+segment, inside one of the pattern's. -/
+theorem color_table_check_color :
+    (firstPattern "color").map (fun r => colorCovers r (colorLower ["inherit"])) = some true := by decide +kernel
+
+theorem color_table_check_background :
+    (firstPattern "background-color").map (fun r => colorCovers r (colorLower ["transparent", "inherit"])) = some true := by
+  decide +kernel
+
+theorem color_table_check_outline :
+    (firstPattern "outline-color").map (fun r => colorCovers r (colorLower ["invert", "inherit"])) = some true := by
+  decide +kernel
+
+/-- the four `border-*-color` properties are registered with the very pattern of `background-color` -/
+theorem color_table_check_borders :
+    (sameAsBackgroundColor.all fun n => decide (firstPattern n = firstPattern "background-color")) = true := by
+  decide +kernel
+
+/-
+T13.4 [W2] colours, full statement (does NOT hold):
+  ∀ s, s.getLast? ≠ some 10 → (accepts r s = true ↔ member (color21 wsCss ++ kws extra) s = true)
+Three deviations, each with a machine-checked witness below: (1) the CSS Color 3 values (`rgba()`, `hsl()`,
+`hsla()`, `currentColor`, the X11 names) are accepted for every profile — by design of `profiles.py` (the CSS3
+colour macros replace the CSS 2.1 ones); (2) the 28 system colours are rejected (`C13-system-colors`) and a `+`
+sign in `rgb()` is rejected (`C13-plus-sign`); (3) U+000B counts as white space inside `rgb()` (Python's `\s`;
+reachable through a direct `profile.validate` call only, `C13-vtab-whitespace-direct`).
+
+PARKED — soundness up to CSS Color 3:
+  theorem color_sound_partial (prop extra) (hmem : (prop, extra) ∈ Css21.colorProps) :
+      ∃ r, firstPattern prop = some r ∧ ∀ s, s.getLast? ≠ some 10 → accepts r s = true → member (colorUpper extra) s = true
+follows from `colorWithin_spec` (Lemmas/ValidateColor.lean, proved) once the table check
+  (firstPattern "color").map (fun r => colorWithin r (colorUpper ["inherit"])) = some true
+is evaluated; `decide +kernel` does evaluate it to `true` (measured: 97 s of kernel time for `color` alone with a
+`+`-free `colorUpper`, three distinct patterns), which is over the build budget — the linear scan inside the
+`rgba(` / `hsla(` groups (288 x 288 templates of ~40 segments) needs a structured checker. Until then the
+soundness direction for colours rests on the implementation-side oracle (colour non-members by construction).
+-/
+/-- T13.4 [W2] colours, completeness with the exact guards: for the seven single-colour properties every CSS 2.1
+`<color>` that is not a system colour and has no `+` sign — the 17 keywords, `#rgb`, `#rrggbb`, `rgb()` of integers
+or percentages with CSS white space around the numbers, in any letter case — and every keyword of the property
+is accepted by the registered check. -/
+theorem color_complete_partial (prop : String) (extra : List String) (hmem : (prop, extra) ∈ Css21.colorProps) :
+    ∃ r, firstPattern prop = some r ∧ ∀ s : Str, s.getLast? ≠ some 10 →
+      member (colorLower extra) s = true → accepts r s = true := by
+  have hb := color_table_check_background
+  have hsame := List.all_eq_true.1 color_table_check_borders
+  have key : ∀ (n : String) (ex : List String),
+      (firstPattern n).map (fun r => colorCovers r (colorLower ex)) = some true →
+      ∃ r, firstPattern n = some r ∧ ∀ s : Str, s.getLast? ≠ some 10 →
+        member (colorLower ex) s = true → accepts r s = true := by
+    intro n ex h
+    cases hp : firstPattern n with
+    | none => simp [hp] at h
+    | some r =>
+      simp only [hp, Option.map_some, Option.some.injEq] at h
+      exact ⟨r, rfl, fun s hs => colorCovers_spec r _ h s hs⟩
+  have border : ∀ n ∈ sameAsBackgroundColor,
+      (firstPattern n).map (fun r => colorCovers r (colorLower ["transparent", "inherit"])) = some true := by
+    intro n hn
+    have := of_decide_eq_true (hsame n hn)
+    rw [this]; exact hb
+  simp only [Css21.colorProps, List.mem_cons, Prod.mk.injEq, List.not_mem_nil, or_false] at hmem
+  rcases hmem with ⟨rfl, rfl⟩ | ⟨rfl, rfl⟩ | ⟨rfl, rfl⟩ | ⟨rfl, rfl⟩ | ⟨rfl, rfl⟩ | ⟨rfl, rfl⟩ | ⟨rfl, rfl⟩
+  · exact key _ _ color_table_check_color
+  · exact key _ _ hb
+  · exact key _ _ (border _ (by simp [sameAsBackgroundColor]))
+  · exact key _ _ (border _ (by simp [sameAsBackgroundColor]))
+  · exact key _ _ (border _ (by simp [sameAsBackgroundColor]))
+  · exact key _ _ (border _ (by simp [sameAsBackgroundColor]))
+  · exact key _ _ color_table_check_outline
+
+/-- non-vacuity, what the reference means on examples, and the witnesses of the three deviations (tests) -/
+example : member (colorLower ["inherit"]) (cps "rgb( 1 ,2,\t3)") = true ∧
+    member (colorLower ["inherit"]) (cps "#AbC") = true ∧ member (colorLower ["inherit"]) (cps "Orange") = true ∧
+    member (colorLower ["inherit"]) (cps "rgb(1%,2.5%,-.3%)") = true ∧
+    member (colorLower ["inherit"]) (cps "rgb(1,2%,3)") = false ∧
+    member (colorLower ["inherit"]) (cps "#abcd") = false ∧
+    -- (1) CSS Color 3 values are accepted and are not CSS 2.1 colours
+    (firstPattern "color").map (fun r => accepts r (cps "rgba(1,2,3,.5)")) = some true ∧
+    member (Css21.color21 Css21.wsCss) (cps "rgba(1,2,3,.5)") = false ∧
+    -- (2) a system colour and a `+` component are CSS 2.1 colours and are rejected
+    (firstPattern "color").map (fun r => accepts r (cps "ButtonFace")) = some false ∧
+    member (Css21.color21 Css21.wsCss) (cps "ButtonFace") = true ∧
+    (firstPattern "color").map (fun r => accepts r (cps "rgb(+1,2,3)")) = some false ∧
+    member (Css21.color21 Css21.wsCss) (cps "rgb(+1,2,3)") = true ∧
+    -- (3) U+000B inside rgb() is accepted and is not CSS white space
+    (firstPattern "color").map (fun r => accepts r [114, 103, 98, 40, 11, 49, 44, 50, 44, 51, 41]) = some true ∧
+    member (Css21.color21 Css21.wsCss ++ Css21.color3Ext Css21.wsCss)
+      [114, 103, 98, 40, 11, 49, 44, 50, 44, 51, 41] = false := by
   decide +kernel
 
 end CssVerif.C13
